@@ -13,11 +13,18 @@ import common, pool, specs, gens, ftdiff, c02, semcheck
 def classify(case, rec):
     tags = case["tags"]
     preds = set()
-    coefs = [int(t[1:]) for t in tags if t[0] in "ab" and t[1:].isdigit()]
-    b = int([t for t in tags if t[0] == "b" and t[1:].isdigit()][0][1:])
+    isint = lambda x: x.lstrip("-").isdigit()
+    coefs = [abs(int(t[1:])) for t in tags if t[0] in "abc" and isint(t[1:])]
     if any(x & (x - 1) for x in coefs):
         preds.add("nondyadic_coefficient")
-    halo = max(b * (case["ext"][r] - 1) for r in case["ext"] if r in ("S", "R", "T"))
+    halo = 0
+    for e in case["eins"]:
+        for t in e["terms"]:
+            for f in t["factors"]:
+                if f[0] == "t":
+                    for i in f[2]:
+                        if len(i) > 1:
+                            halo = max(halo, max(abs(c) * (case["ext"][v.upper()] - 1) for c, v in i if v.upper() in ("S", "R", "T", "V")))
     if halo > 0 and ("part1" in tags or "part2" in tags):
         preds.add("halo_partition")
     if halo > 0 and "part2" in tags:
@@ -337,7 +344,8 @@ def run(ctx):
     n = 2 if ctx.tier == "quick" else 3
     recs = pool.collect(ctx, [dict(gen="g4", count=120 * k, modes=["plain"], nexec=n), dict(gen="g4c", count=25 * k, modes=["plain"], nexec=n),
                               dict(gen="g4n", count=90 * k, modes=["plain"], nexec=n), dict(gen="g5conv2", count=20 * k, modes=["plain"], nexec=n),
-                              dict(gen="g4p", count=40 * k, modes=["plain"], nexec=n)])
+                              dict(gen="g4p", count=40 * k, modes=["plain"], nexec=n),
+                              dict(gen="g4q", count=80 * k, modes=["plain"], nexec=n)])
     c02.check_records(ctx, recs, classify=classify, need_reference=False)
     check_model(ctx, recs)
     witnesses(ctx)
